@@ -290,6 +290,7 @@ Record sconn : Type := mkConn {
   sc_ring : list (N * bool);   (* closedRing with closedStrms' value: (id, reset by the server) *)
   sc_oldest : N;   (* closedOldest *)
   sc_lastID : N;
+  sc_highestID : N;   (* highest id the peer has used to open a stream, accepted or refused *)
   sc_clientWindow : Z;
   sc_currentWindow : Z;
   sc_enc : hstate;
@@ -310,46 +311,48 @@ Record sconn : Type := mkConn {
 }.
 
 Definition upd_out (c : sconn) (o : list outev) : sconn :=
-  mkConn (sc_strms c) (sc_gone c) (sc_open c) (sc_initWin c) (sc_ring c) (sc_oldest c) (sc_lastID c) (sc_clientWindow c) (sc_currentWindow c) (sc_enc c) (sc_dec c) (sc_closing c) (sc_closeRef c) (sc_expectCont c) (sc_readerQ c) (sc_rl_done c) (sc_sl_done c) (sc_closer c) (sc_wl_dead c) (sc_now c) (sc_discardID c) (sc_discardPrev c) (sc_discardFields c) o.
+  mkConn (sc_strms c) (sc_gone c) (sc_open c) (sc_initWin c) (sc_ring c) (sc_oldest c) (sc_lastID c) (sc_highestID c) (sc_clientWindow c) (sc_currentWindow c) (sc_enc c) (sc_dec c) (sc_closing c) (sc_closeRef c) (sc_expectCont c) (sc_readerQ c) (sc_rl_done c) (sc_sl_done c) (sc_closer c) (sc_wl_dead c) (sc_now c) (sc_discardID c) (sc_discardPrev c) (sc_discardFields c) o.
 Definition upd_strms (c : sconn) (l : list stream) : sconn :=
-  mkConn l (sc_gone c) (sc_open c) (sc_initWin c) (sc_ring c) (sc_oldest c) (sc_lastID c) (sc_clientWindow c) (sc_currentWindow c) (sc_enc c) (sc_dec c) (sc_closing c) (sc_closeRef c) (sc_expectCont c) (sc_readerQ c) (sc_rl_done c) (sc_sl_done c) (sc_closer c) (sc_wl_dead c) (sc_now c) (sc_discardID c) (sc_discardPrev c) (sc_discardFields c) (sc_out c).
+  mkConn l (sc_gone c) (sc_open c) (sc_initWin c) (sc_ring c) (sc_oldest c) (sc_lastID c) (sc_highestID c) (sc_clientWindow c) (sc_currentWindow c) (sc_enc c) (sc_dec c) (sc_closing c) (sc_closeRef c) (sc_expectCont c) (sc_readerQ c) (sc_rl_done c) (sc_sl_done c) (sc_closer c) (sc_wl_dead c) (sc_now c) (sc_discardID c) (sc_discardPrev c) (sc_discardFields c) (sc_out c).
 Definition upd_gone (c : sconn) (l : list stream) : sconn :=
-  mkConn (sc_strms c) l (sc_open c) (sc_initWin c) (sc_ring c) (sc_oldest c) (sc_lastID c) (sc_clientWindow c) (sc_currentWindow c) (sc_enc c) (sc_dec c) (sc_closing c) (sc_closeRef c) (sc_expectCont c) (sc_readerQ c) (sc_rl_done c) (sc_sl_done c) (sc_closer c) (sc_wl_dead c) (sc_now c) (sc_discardID c) (sc_discardPrev c) (sc_discardFields c) (sc_out c).
+  mkConn (sc_strms c) l (sc_open c) (sc_initWin c) (sc_ring c) (sc_oldest c) (sc_lastID c) (sc_highestID c) (sc_clientWindow c) (sc_currentWindow c) (sc_enc c) (sc_dec c) (sc_closing c) (sc_closeRef c) (sc_expectCont c) (sc_readerQ c) (sc_rl_done c) (sc_sl_done c) (sc_closer c) (sc_wl_dead c) (sc_now c) (sc_discardID c) (sc_discardPrev c) (sc_discardFields c) (sc_out c).
 Definition upd_open (c : sconn) (n : Z) : sconn :=
-  mkConn (sc_strms c) (sc_gone c) n (sc_initWin c) (sc_ring c) (sc_oldest c) (sc_lastID c) (sc_clientWindow c) (sc_currentWindow c) (sc_enc c) (sc_dec c) (sc_closing c) (sc_closeRef c) (sc_expectCont c) (sc_readerQ c) (sc_rl_done c) (sc_sl_done c) (sc_closer c) (sc_wl_dead c) (sc_now c) (sc_discardID c) (sc_discardPrev c) (sc_discardFields c) (sc_out c).
+  mkConn (sc_strms c) (sc_gone c) n (sc_initWin c) (sc_ring c) (sc_oldest c) (sc_lastID c) (sc_highestID c) (sc_clientWindow c) (sc_currentWindow c) (sc_enc c) (sc_dec c) (sc_closing c) (sc_closeRef c) (sc_expectCont c) (sc_readerQ c) (sc_rl_done c) (sc_sl_done c) (sc_closer c) (sc_wl_dead c) (sc_now c) (sc_discardID c) (sc_discardPrev c) (sc_discardFields c) (sc_out c).
 Definition upd_initWin (c : sconn) (n : Z) : sconn :=
-  mkConn (sc_strms c) (sc_gone c) (sc_open c) n (sc_ring c) (sc_oldest c) (sc_lastID c) (sc_clientWindow c) (sc_currentWindow c) (sc_enc c) (sc_dec c) (sc_closing c) (sc_closeRef c) (sc_expectCont c) (sc_readerQ c) (sc_rl_done c) (sc_sl_done c) (sc_closer c) (sc_wl_dead c) (sc_now c) (sc_discardID c) (sc_discardPrev c) (sc_discardFields c) (sc_out c).
+  mkConn (sc_strms c) (sc_gone c) (sc_open c) n (sc_ring c) (sc_oldest c) (sc_lastID c) (sc_highestID c) (sc_clientWindow c) (sc_currentWindow c) (sc_enc c) (sc_dec c) (sc_closing c) (sc_closeRef c) (sc_expectCont c) (sc_readerQ c) (sc_rl_done c) (sc_sl_done c) (sc_closer c) (sc_wl_dead c) (sc_now c) (sc_discardID c) (sc_discardPrev c) (sc_discardFields c) (sc_out c).
 Definition upd_ring (c : sconn) (r : list (N * bool)) (o : N) : sconn :=
-  mkConn (sc_strms c) (sc_gone c) (sc_open c) (sc_initWin c) r o (sc_lastID c) (sc_clientWindow c) (sc_currentWindow c) (sc_enc c) (sc_dec c) (sc_closing c) (sc_closeRef c) (sc_expectCont c) (sc_readerQ c) (sc_rl_done c) (sc_sl_done c) (sc_closer c) (sc_wl_dead c) (sc_now c) (sc_discardID c) (sc_discardPrev c) (sc_discardFields c) (sc_out c).
+  mkConn (sc_strms c) (sc_gone c) (sc_open c) (sc_initWin c) r o (sc_lastID c) (sc_highestID c) (sc_clientWindow c) (sc_currentWindow c) (sc_enc c) (sc_dec c) (sc_closing c) (sc_closeRef c) (sc_expectCont c) (sc_readerQ c) (sc_rl_done c) (sc_sl_done c) (sc_closer c) (sc_wl_dead c) (sc_now c) (sc_discardID c) (sc_discardPrev c) (sc_discardFields c) (sc_out c).
 Definition upd_lastID (c : sconn) (n : N) : sconn :=
-  mkConn (sc_strms c) (sc_gone c) (sc_open c) (sc_initWin c) (sc_ring c) (sc_oldest c) n (sc_clientWindow c) (sc_currentWindow c) (sc_enc c) (sc_dec c) (sc_closing c) (sc_closeRef c) (sc_expectCont c) (sc_readerQ c) (sc_rl_done c) (sc_sl_done c) (sc_closer c) (sc_wl_dead c) (sc_now c) (sc_discardID c) (sc_discardPrev c) (sc_discardFields c) (sc_out c).
+  mkConn (sc_strms c) (sc_gone c) (sc_open c) (sc_initWin c) (sc_ring c) (sc_oldest c) n (sc_highestID c) (sc_clientWindow c) (sc_currentWindow c) (sc_enc c) (sc_dec c) (sc_closing c) (sc_closeRef c) (sc_expectCont c) (sc_readerQ c) (sc_rl_done c) (sc_sl_done c) (sc_closer c) (sc_wl_dead c) (sc_now c) (sc_discardID c) (sc_discardPrev c) (sc_discardFields c) (sc_out c).
 Definition upd_clientWindow (c : sconn) (n : Z) : sconn :=
-  mkConn (sc_strms c) (sc_gone c) (sc_open c) (sc_initWin c) (sc_ring c) (sc_oldest c) (sc_lastID c) n (sc_currentWindow c) (sc_enc c) (sc_dec c) (sc_closing c) (sc_closeRef c) (sc_expectCont c) (sc_readerQ c) (sc_rl_done c) (sc_sl_done c) (sc_closer c) (sc_wl_dead c) (sc_now c) (sc_discardID c) (sc_discardPrev c) (sc_discardFields c) (sc_out c).
+  mkConn (sc_strms c) (sc_gone c) (sc_open c) (sc_initWin c) (sc_ring c) (sc_oldest c) (sc_lastID c) (sc_highestID c) n (sc_currentWindow c) (sc_enc c) (sc_dec c) (sc_closing c) (sc_closeRef c) (sc_expectCont c) (sc_readerQ c) (sc_rl_done c) (sc_sl_done c) (sc_closer c) (sc_wl_dead c) (sc_now c) (sc_discardID c) (sc_discardPrev c) (sc_discardFields c) (sc_out c).
 Definition upd_currentWindow (c : sconn) (n : Z) : sconn :=
-  mkConn (sc_strms c) (sc_gone c) (sc_open c) (sc_initWin c) (sc_ring c) (sc_oldest c) (sc_lastID c) (sc_clientWindow c) n (sc_enc c) (sc_dec c) (sc_closing c) (sc_closeRef c) (sc_expectCont c) (sc_readerQ c) (sc_rl_done c) (sc_sl_done c) (sc_closer c) (sc_wl_dead c) (sc_now c) (sc_discardID c) (sc_discardPrev c) (sc_discardFields c) (sc_out c).
+  mkConn (sc_strms c) (sc_gone c) (sc_open c) (sc_initWin c) (sc_ring c) (sc_oldest c) (sc_lastID c) (sc_highestID c) (sc_clientWindow c) n (sc_enc c) (sc_dec c) (sc_closing c) (sc_closeRef c) (sc_expectCont c) (sc_readerQ c) (sc_rl_done c) (sc_sl_done c) (sc_closer c) (sc_wl_dead c) (sc_now c) (sc_discardID c) (sc_discardPrev c) (sc_discardFields c) (sc_out c).
 Definition upd_enc (c : sconn) (h : hstate) : sconn :=
-  mkConn (sc_strms c) (sc_gone c) (sc_open c) (sc_initWin c) (sc_ring c) (sc_oldest c) (sc_lastID c) (sc_clientWindow c) (sc_currentWindow c) h (sc_dec c) (sc_closing c) (sc_closeRef c) (sc_expectCont c) (sc_readerQ c) (sc_rl_done c) (sc_sl_done c) (sc_closer c) (sc_wl_dead c) (sc_now c) (sc_discardID c) (sc_discardPrev c) (sc_discardFields c) (sc_out c).
+  mkConn (sc_strms c) (sc_gone c) (sc_open c) (sc_initWin c) (sc_ring c) (sc_oldest c) (sc_lastID c) (sc_highestID c) (sc_clientWindow c) (sc_currentWindow c) h (sc_dec c) (sc_closing c) (sc_closeRef c) (sc_expectCont c) (sc_readerQ c) (sc_rl_done c) (sc_sl_done c) (sc_closer c) (sc_wl_dead c) (sc_now c) (sc_discardID c) (sc_discardPrev c) (sc_discardFields c) (sc_out c).
 Definition upd_dec (c : sconn) (h : hstate) : sconn :=
-  mkConn (sc_strms c) (sc_gone c) (sc_open c) (sc_initWin c) (sc_ring c) (sc_oldest c) (sc_lastID c) (sc_clientWindow c) (sc_currentWindow c) (sc_enc c) h (sc_closing c) (sc_closeRef c) (sc_expectCont c) (sc_readerQ c) (sc_rl_done c) (sc_sl_done c) (sc_closer c) (sc_wl_dead c) (sc_now c) (sc_discardID c) (sc_discardPrev c) (sc_discardFields c) (sc_out c).
+  mkConn (sc_strms c) (sc_gone c) (sc_open c) (sc_initWin c) (sc_ring c) (sc_oldest c) (sc_lastID c) (sc_highestID c) (sc_clientWindow c) (sc_currentWindow c) (sc_enc c) h (sc_closing c) (sc_closeRef c) (sc_expectCont c) (sc_readerQ c) (sc_rl_done c) (sc_sl_done c) (sc_closer c) (sc_wl_dead c) (sc_now c) (sc_discardID c) (sc_discardPrev c) (sc_discardFields c) (sc_out c).
 Definition upd_closing (c : sconn) (b : bool) (ref : N) : sconn :=
-  mkConn (sc_strms c) (sc_gone c) (sc_open c) (sc_initWin c) (sc_ring c) (sc_oldest c) (sc_lastID c) (sc_clientWindow c) (sc_currentWindow c) (sc_enc c) (sc_dec c) b ref (sc_expectCont c) (sc_readerQ c) (sc_rl_done c) (sc_sl_done c) (sc_closer c) (sc_wl_dead c) (sc_now c) (sc_discardID c) (sc_discardPrev c) (sc_discardFields c) (sc_out c).
+  mkConn (sc_strms c) (sc_gone c) (sc_open c) (sc_initWin c) (sc_ring c) (sc_oldest c) (sc_lastID c) (sc_highestID c) (sc_clientWindow c) (sc_currentWindow c) (sc_enc c) (sc_dec c) b ref (sc_expectCont c) (sc_readerQ c) (sc_rl_done c) (sc_sl_done c) (sc_closer c) (sc_wl_dead c) (sc_now c) (sc_discardID c) (sc_discardPrev c) (sc_discardFields c) (sc_out c).
 Definition upd_expectCont (c : sconn) (n : N) : sconn :=
-  mkConn (sc_strms c) (sc_gone c) (sc_open c) (sc_initWin c) (sc_ring c) (sc_oldest c) (sc_lastID c) (sc_clientWindow c) (sc_currentWindow c) (sc_enc c) (sc_dec c) (sc_closing c) (sc_closeRef c) n (sc_readerQ c) (sc_rl_done c) (sc_sl_done c) (sc_closer c) (sc_wl_dead c) (sc_now c) (sc_discardID c) (sc_discardPrev c) (sc_discardFields c) (sc_out c).
+  mkConn (sc_strms c) (sc_gone c) (sc_open c) (sc_initWin c) (sc_ring c) (sc_oldest c) (sc_lastID c) (sc_highestID c) (sc_clientWindow c) (sc_currentWindow c) (sc_enc c) (sc_dec c) (sc_closing c) (sc_closeRef c) n (sc_readerQ c) (sc_rl_done c) (sc_sl_done c) (sc_closer c) (sc_wl_dead c) (sc_now c) (sc_discardID c) (sc_discardPrev c) (sc_discardFields c) (sc_out c).
 Definition upd_readerQ (c : sconn) (q : list sframe) : sconn :=
-  mkConn (sc_strms c) (sc_gone c) (sc_open c) (sc_initWin c) (sc_ring c) (sc_oldest c) (sc_lastID c) (sc_clientWindow c) (sc_currentWindow c) (sc_enc c) (sc_dec c) (sc_closing c) (sc_closeRef c) (sc_expectCont c) q (sc_rl_done c) (sc_sl_done c) (sc_closer c) (sc_wl_dead c) (sc_now c) (sc_discardID c) (sc_discardPrev c) (sc_discardFields c) (sc_out c).
+  mkConn (sc_strms c) (sc_gone c) (sc_open c) (sc_initWin c) (sc_ring c) (sc_oldest c) (sc_lastID c) (sc_highestID c) (sc_clientWindow c) (sc_currentWindow c) (sc_enc c) (sc_dec c) (sc_closing c) (sc_closeRef c) (sc_expectCont c) q (sc_rl_done c) (sc_sl_done c) (sc_closer c) (sc_wl_dead c) (sc_now c) (sc_discardID c) (sc_discardPrev c) (sc_discardFields c) (sc_out c).
 Definition upd_done (c : sconn) (rl sl : bool) : sconn :=
-  mkConn (sc_strms c) (sc_gone c) (sc_open c) (sc_initWin c) (sc_ring c) (sc_oldest c) (sc_lastID c) (sc_clientWindow c) (sc_currentWindow c) (sc_enc c) (sc_dec c) (sc_closing c) (sc_closeRef c) (sc_expectCont c) (sc_readerQ c) rl sl (sc_closer c) (sc_wl_dead c) (sc_now c) (sc_discardID c) (sc_discardPrev c) (sc_discardFields c) (sc_out c).
+  mkConn (sc_strms c) (sc_gone c) (sc_open c) (sc_initWin c) (sc_ring c) (sc_oldest c) (sc_lastID c) (sc_highestID c) (sc_clientWindow c) (sc_currentWindow c) (sc_enc c) (sc_dec c) (sc_closing c) (sc_closeRef c) (sc_expectCont c) (sc_readerQ c) rl sl (sc_closer c) (sc_wl_dead c) (sc_now c) (sc_discardID c) (sc_discardPrev c) (sc_discardFields c) (sc_out c).
 Definition upd_closer (c : sconn) (b : bool) : sconn :=
-  mkConn (sc_strms c) (sc_gone c) (sc_open c) (sc_initWin c) (sc_ring c) (sc_oldest c) (sc_lastID c) (sc_clientWindow c) (sc_currentWindow c) (sc_enc c) (sc_dec c) (sc_closing c) (sc_closeRef c) (sc_expectCont c) (sc_readerQ c) (sc_rl_done c) (sc_sl_done c) b (sc_wl_dead c) (sc_now c) (sc_discardID c) (sc_discardPrev c) (sc_discardFields c) (sc_out c).
+  mkConn (sc_strms c) (sc_gone c) (sc_open c) (sc_initWin c) (sc_ring c) (sc_oldest c) (sc_lastID c) (sc_highestID c) (sc_clientWindow c) (sc_currentWindow c) (sc_enc c) (sc_dec c) (sc_closing c) (sc_closeRef c) (sc_expectCont c) (sc_readerQ c) (sc_rl_done c) (sc_sl_done c) b (sc_wl_dead c) (sc_now c) (sc_discardID c) (sc_discardPrev c) (sc_discardFields c) (sc_out c).
 Definition upd_wl_dead (c : sconn) (b : bool) : sconn :=
-  mkConn (sc_strms c) (sc_gone c) (sc_open c) (sc_initWin c) (sc_ring c) (sc_oldest c) (sc_lastID c) (sc_clientWindow c) (sc_currentWindow c) (sc_enc c) (sc_dec c) (sc_closing c) (sc_closeRef c) (sc_expectCont c) (sc_readerQ c) (sc_rl_done c) (sc_sl_done c) (sc_closer c) b (sc_now c) (sc_discardID c) (sc_discardPrev c) (sc_discardFields c) (sc_out c).
+  mkConn (sc_strms c) (sc_gone c) (sc_open c) (sc_initWin c) (sc_ring c) (sc_oldest c) (sc_lastID c) (sc_highestID c) (sc_clientWindow c) (sc_currentWindow c) (sc_enc c) (sc_dec c) (sc_closing c) (sc_closeRef c) (sc_expectCont c) (sc_readerQ c) (sc_rl_done c) (sc_sl_done c) (sc_closer c) b (sc_now c) (sc_discardID c) (sc_discardPrev c) (sc_discardFields c) (sc_out c).
 Definition upd_now (c : sconn) (t : Z) : sconn :=
-  mkConn (sc_strms c) (sc_gone c) (sc_open c) (sc_initWin c) (sc_ring c) (sc_oldest c) (sc_lastID c) (sc_clientWindow c) (sc_currentWindow c) (sc_enc c) (sc_dec c) (sc_closing c) (sc_closeRef c) (sc_expectCont c) (sc_readerQ c) (sc_rl_done c) (sc_sl_done c) (sc_closer c) (sc_wl_dead c) t (sc_discardID c) (sc_discardPrev c) (sc_discardFields c) (sc_out c).
+  mkConn (sc_strms c) (sc_gone c) (sc_open c) (sc_initWin c) (sc_ring c) (sc_oldest c) (sc_lastID c) (sc_highestID c) (sc_clientWindow c) (sc_currentWindow c) (sc_enc c) (sc_dec c) (sc_closing c) (sc_closeRef c) (sc_expectCont c) (sc_readerQ c) (sc_rl_done c) (sc_sl_done c) (sc_closer c) (sc_wl_dead c) t (sc_discardID c) (sc_discardPrev c) (sc_discardFields c) (sc_out c).
+Definition upd_highestID (c : sconn) (n : N) : sconn :=
+  mkConn (sc_strms c) (sc_gone c) (sc_open c) (sc_initWin c) (sc_ring c) (sc_oldest c) (sc_lastID c) n (sc_clientWindow c) (sc_currentWindow c) (sc_enc c) (sc_dec c) (sc_closing c) (sc_closeRef c) (sc_expectCont c) (sc_readerQ c) (sc_rl_done c) (sc_sl_done c) (sc_closer c) (sc_wl_dead c) (sc_now c) (sc_discardID c) (sc_discardPrev c) (sc_discardFields c) (sc_out c).
 Definition upd_discard (c : sconn) (id : N) (prev : bytes) (n : N) : sconn :=
-  mkConn (sc_strms c) (sc_gone c) (sc_open c) (sc_initWin c) (sc_ring c) (sc_oldest c) (sc_lastID c) (sc_clientWindow c) (sc_currentWindow c) (sc_enc c) (sc_dec c) (sc_closing c) (sc_closeRef c) (sc_expectCont c) (sc_readerQ c) (sc_rl_done c) (sc_sl_done c) (sc_closer c) (sc_wl_dead c) (sc_now c) id prev n (sc_out c).
+  mkConn (sc_strms c) (sc_gone c) (sc_open c) (sc_initWin c) (sc_ring c) (sc_oldest c) (sc_lastID c) (sc_highestID c) (sc_clientWindow c) (sc_currentWindow c) (sc_enc c) (sc_dec c) (sc_closing c) (sc_closeRef c) (sc_expectCont c) (sc_readerQ c) (sc_rl_done c) (sc_sl_done c) (sc_closer c) (sc_wl_dead c) (sc_now c) id prev n (sc_out c).
 
 Definition init_conn (cfg : config) (h0 : hstate) : sconn :=
-  mkConn [] [] 0 65535 [] 0 0 65535 (cf_maxWindow cfg) h0 h0 false 0 0 [] false false false false 0 0 [] 0 [].
+  mkConn [] [] 0 65535 [] 0 0 0 65535 (cf_maxWindow cfg) h0 h0 false 0 0 [] false false false false 0 0 [] 0 [].
 
 (* sc.write(fr): the frame reaches the peer unless the write loop has gone *)
 Definition emit (c : sconn) (o : outev) : sconn :=
@@ -597,12 +600,20 @@ Definition discard_header_block (cfg : config) (c : sconn) (fr : sframe) : sconn
   let c0 := if fkind_eqb (sf_kind fr) KCont then c else upd_discard c (sc_discardID c) [] 0 in
   discard_fragment cfg c0 (sf_sid fr) (sf_payload fr) (flag_has (sf_flags fr) FL_EH).
 
+Definition set_headers_finished (s : stream) (b : bool) : stream :=
+  let h := get_hdr s in
+  set_hdr s (mkHdr b (hd_prev h) (hd_pMethod h) (hd_pScheme h) (hd_pPath h) (hd_pAuth h) (hd_regularSeen h)
+                   (hd_contentLength h) (hd_hasCL h) (hd_headerListSize h) (hd_blockFields h) (hd_path h) (hd_req h)).
+
 Definition handle_header_frame (cfg : config) (c : sconn) (s : stream) (fr : sframe) : sconn * stream * option h2err :=
-  if st_headersFinished s && negb (flag_has (sf_flags fr) (FL_ES + FL_EH)) then (c, s, Some (EGoAway c_ProtocolError))
-  else if fkind_eqb (sf_kind fr) KHeaders && (sf_dep fr =? st_id s) then (c, s, Some (EGoAway c_ProtocolError))
+  (* a second block on the stream is a trailer: HEADERS with END_STREAM; the headers are unfinished again while it lasts *)
+  if st_headersFinished s && (negb (fkind_eqb (sf_kind fr) KHeaders) || negb (flag_has (sf_flags fr) FL_ES))
+  then (c, s, Some (EGoAway c_ProtocolError))
+  else if fkind_eqb (sf_kind fr) KHeaders && (sf_dep fr =? st_id s)
+  then (c, set_headers_finished s false, Some (EGoAway c_ProtocolError))
   else
     let h0 := get_hdr s in
-    let h1 := mkHdr (hd_headersFinished h0) [] (hd_pMethod h0) (hd_pScheme h0) (hd_pPath h0) (hd_pAuth h0)
+    let h1 := mkHdr false [] (hd_pMethod h0) (hd_pScheme h0) (hd_pPath h0) (hd_pAuth h0)
                     (hd_regularSeen h0) (hd_contentLength h0) (hd_hasCL h0) (hd_headerListSize h0)
                     (if fkind_eqb (sf_kind fr) KCont then hd_blockFields h0 else 0) (hd_path h0) (hd_req h0) in
     let b := hd_prev h0 ++ sf_payload fr in
@@ -645,11 +656,6 @@ Definition verify_state (s : stream) (fr : sframe) : option h2err :=
     else Some (EGoAway c_StreamClosedError)
   | _ => None
   end.
-
-Definition set_headers_finished (s : stream) (b : bool) : stream :=
-  let h := get_hdr s in
-  set_hdr s (mkHdr b (hd_prev h) (hd_pMethod h) (hd_pScheme h) (hd_pPath h) (hd_pAuth h) (hd_regularSeen h)
-                   (hd_contentLength h) (hd_hasCL h) (hd_headerListSize h) (hd_blockFields h) (hd_path h) (hd_req h)).
 
 Definition handle_frame (cfg : config) (c : sconn) (s : stream) (fr : sframe) : sconn * stream * option h2err :=
   match verify_state s fr with
@@ -709,7 +715,8 @@ Definition handle_state (fr : sframe) (s : stream) : stream :=
       if flag_has (sf_flags fr) FL_ES then set_state s0 SHalfClosed else set_state s0 SOpen
     else s0
   | SOpen =>
-    if flag_has (sf_flags fr) FL_ES then set_state s0 SHalfClosed
+    if (fkind_eqb (sf_kind fr) KData || fkind_eqb (sf_kind fr) KHeaders) && flag_has (sf_flags fr) FL_ES
+    then set_state s0 SHalfClosed
     else if fkind_eqb (sf_kind fr) KRst then set_state s0 SClosed else s0
   | SHalfClosed => if fkind_eqb (sf_kind fr) KRst then set_state s0 SClosed else s0
   | _ => s0
@@ -920,8 +927,8 @@ Definition sl_frame (cfg : config) (c : sconn) (fr : sframe) : sconn * bool :=
         let '(l', over) := bumpall [] (sc_strms c1) in
         let c2 := upd_strms c1 l' in
         if over then brk (write_goaway c2 0 c_FlowControlError)
-        else cont (flush_streams c2)
-      else cont c0
+        else cont (flush_streams (emit c2 OSettingsAck))   (* acknowledged once applied, before anything is sent *)
+      else cont (emit c0 OSettingsAck)
     | KWinUpd =>
       let w := (sc_clientWindow c + Z.of_N (sf_inc fr))%Z in
       let c1 := upd_clientWindow c w in
@@ -957,7 +964,11 @@ Definition sl_frame (cfg : config) (c : sconn) (fr : sframe) : sconn * bool :=
           end
         else if fkind_eqb (sf_kind fr) KPriority then
           if sf_dep fr =? sf_sid fr then inl (cont (write_reset c (sf_sid fr) c_ProtocolError)) else inl (cont c)
-        else if fkind_eqb (sf_kind fr) KHeaders && ((cf_maxStreams cfg <=? sc_open c)%Z || wasClosing) then
+        else if fkind_eqb (sf_kind fr) KHeaders && (sf_sid fr <=? sc_highestID c) then
+          inl (cont (write_goaway c (sf_sid fr) c_ProtocolError))
+        else
+        let c := if fkind_eqb (sf_kind fr) KHeaders then upd_highestID c (sf_sid fr) else c in
+        if fkind_eqb (sf_kind fr) KHeaders && ((cf_maxStreams cfg <=? sc_open c)%Z || wasClosing) then
           let c1 := mark_closed (write_reset c (sf_sid fr) c_RefusedStreamError) (sf_sid fr) true in
           inl (discard_or_break (discard_header_block cfg c1 fr))
         else if sf_sid fr <? sc_lastID c then inl (cont (write_goaway c (sf_sid fr) c_ProtocolError))
@@ -1098,7 +1109,7 @@ Definition rl_step (cfg : config) (c : sconn) (i : rl_input) : sconn :=
       else
         match sf_kind fr with
         | KSettings =>
-          if negb (flag_has (sf_flags fr) FL_ES) then forward (emit c1 OSettingsAck) fr else c1
+          if negb (flag_has (sf_flags fr) FL_ES) then forward c1 fr else c1
         | KWinUpd =>
           if sf_inc fr =? 0 then rl_exit (write_goaway c1 0 c_ProtocolError) 1 else forward c1 fr
         | KPing => if negb (flag_has (sf_flags fr) FL_ES) then emit c1 (OPingAck (sf_payload fr)) else c1
